@@ -1,7 +1,8 @@
 (* C11 — optimal trials are exactly the non-dominated completed trials. Statements only. *)
 From VZ Require Import Base.Prelude Base.XFloat Model.Pareto Proofs.ParetoP.
 From VZ Require Model.DominanceIR Gen.Dominance Proofs.DominanceP.
-From VZ Require Model.Service Model.HandlerIR Model.OptimalIR Gen.OptimalSrc Proofs.OptimalIRP.
+From VZ Require Model.BestTrials Gen.BestTrialsSrc Proofs.BestTrialsP.
+From VZ Require Model.Service Model.HandlerIR Model.OptimalIR Gen.OptimalSrc Proofs.OptimalIRP Proofs.OptimalNaNP.
 
 (* spec_optimal ps : for each point, "no point of ps dominates it" (all >=, some >), IEEE comparisons *)
 
@@ -65,7 +66,8 @@ Proof.
 Qed.
 Print Assumptions C11_fast_refuted.
 
-(* a NaN objective is incomparable, hence never dominated: the service's matrix reports it *)
+(* a NaN objective is incomparable, hence never dominated: the dominance MATRIX alone would report it (refuted below); the
+   handler therefore does not consider such a trial at all (C11_service_reports_only_considered_trials) *)
 Definition C11_nan_never_reported : Prop := forall ys, 
   forallb (fun yb => negb (existsb is_nan (fst yb) && snd yb)) (combine ys (svc_optimal ys)) = true.
 Theorem C11_nan_never_reported_refuted : ~ C11_nan_never_reported.
@@ -103,3 +105,33 @@ Theorem C11_source_list_optimal_is_the_model : forall k,
   HandlerIR.peq (OptimalIR.list_optimal_of OptimalSrc.src_ListOptimalTrials k) (Service.handler (Service.ListOptimalTrials k)).
 Proof. exact OptimalIRP.src_list_optimal_is_h_list_optimal. Qed.
 Print Assumptions C11_source_list_optimal_is_the_model.
+
+(* the in-memory best-trial query (InRamPolicySupporter.GetBestTrials): its candidate tests and the attributes it reads and
+   writes are regenerated from local_policy_supporters.py on every run (Gen/BestTrialsSrc.v).  The candidates are exactly the
+   successfully completed trials that report every objective as a number; the query reads only the current trials and the study
+   configuration and writes nothing (its answer cannot be a remembered one); and the non-dominated candidates are exactly the
+   trials the property describes. *)
+Theorem C11_source_best_trials_candidates : forall t,
+  BestTrials.is_candidate_of (BestTrials.bs_tests BestTrialsSrc.src_best) t = BestTrials.eligible t.
+Proof. intros t. rewrite BestTrialsP.src_tests_are_model. apply BestTrialsP.model_candidate_is_eligible. Qed.
+Print Assumptions C11_source_best_trials_candidates.
+
+Theorem C11_source_best_trials_query_is_stateless : BestTrials.stateless BestTrialsSrc.src_best = true.
+Proof. exact BestTrialsP.src_stateless. Qed.
+Print Assumptions C11_source_best_trials_query_is_stateless.
+
+Theorem C11_source_best_trials_exact : forall ts t,
+  In t (BestTrials.best_of (BestTrials.bs_tests BestTrialsSrc.src_best) ts) <->
+  In t ts /\ BestTrials.eligible t = true /\
+  forall q, In q ts -> BestTrials.eligible q = true -> dominates (BestTrials.vec_of q) (BestTrials.vec_of t) = false.
+Proof. exact BestTrialsP.src_best_exact. Qed.
+Print Assumptions C11_source_best_trials_exact.
+
+(* what ListOptimalTrials reports (the function `optimal_trials` of the handler model, to which the regenerated handler is proved
+   equal above): only trials that SUCCEEDED, report every configured metric, and whose objectives are numbers - infeasible,
+   unfinished, partial and NaN trials are never reported *)
+Theorem C11_service_reports_only_considered_trials : forall metrics trials t, In t (Service.optimal_trials metrics trials) ->
+  Service.tstate_eqb (Service.t_state t) Service.SUCCEEDED = true /\
+  exists v, Service.objective_vector metrics t = Some v /\ existsb is_nan v = false /\ length v = length metrics.
+Proof. exact OptimalNaNP.optimal_trials_never_nan. Qed.
+Print Assumptions C11_service_reports_only_considered_trials.
